@@ -139,6 +139,9 @@ def gen_list_op(r, m, item, ops=OPS):
         op["v"] = item()
     elif k == "imul":
         op["n"] = r.choice([-1, 0, 1, 2, 2, 3])
+        if r.random() < 0.12:
+            # no integer: the built-in refuses it whatever its size
+            op["n"] = r.choice([0.5, -1.5, 2.5, 0.0])
     elif k == "pop":
         op["i"] = ri()
     elif k == "remove":
